@@ -61,9 +61,26 @@ structure HG where
 
 def respPanics : Resp → Nat | .panic => 1 | _ => 0
 
-/-- Obligations of the code (g1, g3, g4, g5 of DESIGN §4; g2 is `RankSpec`). -/
-def holdPre (g : HG) : Op → Prop
-  | .acq _ true _ => g.depth = 0                      -- g3: never block inside try / non-acquiring APIs
+/-- An optional rank discipline (g2 of DESIGN §4). With `none` the specification carries no
+ordering obligation (all the theorems about holds are unconditional); with `some rank` a
+blocking acquisition of `x` is allowed only while every lock held has a smaller rank. -/
+abbrev RankOpt := Option (LockId → Nat)
+
+def Low (ro : RankOpt) (h : Held) (x : LockId) : Prop :=
+  match ro with
+  | none => True
+  | some rank => ∀ y m, 0 < h y m → rank y < rank x
+
+@[simp] theorem Low_none (h : Held) (x : LockId) : Low none h x = True := rfl
+
+theorem Low_empty (ro : RankOpt) (x : LockId) : Low ro Held.empty x := by
+  cases ro with
+  | none => trivial
+  | some rank => intro y m h; exact absurd h (Nat.lt_irrefl 0)
+
+/-- Obligations of the code (g1 … g5 of DESIGN §4). -/
+def holdPre (ro : RankOpt) (g : HG) : Op → Prop
+  | .acq _ true x => g.depth = 0 ∧ Low ro g.held x    -- g3: never block inside try / non-acquiring APIs; g2: rank
   | .acq _ false _ => True
   | .rel m x => 0 < g.held x m                              -- g1: release only what is held, in its mode
   | .kill _ => False                                        -- happylock itself never kills a lock
@@ -95,19 +112,19 @@ def holdUpd (g : HG) : Op → Resp → HG
     else g
   | _, _ => g
 
-def HoldSpec (n : Nat) : Spec HG := { pre := holdPre, adm := holdAdm n, upd := holdUpd }
+def HoldSpec (n : Nat) (ro : RankOpt) : Spec HG := { pre := holdPre ro, adm := holdAdm n, upd := holdUpd }
 
 /-! ### leaf contracts -/
 
 section leaf
-variable (n : Nat)
+variable (n : Nat) (ro : RankOpt)
 
 theorem rwLeaf_acq (x : LockId) (m : Mode) (Q : Unit → HG → Prop) (E : Unit → HG → Prop) (g : HG)
-    (hb : g.depth = 0)
+    (hb : g.depth = 0) (hlow : Low ro g.held x)
     (hok : Q () { g with held := g.held.add x m })
     (hp : g.panics < n → E () { g with panics := g.panics + 1 }) :
-    wp (HoldSpec n) ((rwLeaf x).acq m) Q E g := by
-  refine ⟨hb, fun r hr => ?_⟩
+    wp (HoldSpec n ro) ((rwLeaf x).acq m) Q E g := by
+  refine ⟨⟨hb, hlow⟩, fun r hr => ?_⟩
   cases r with
   | ok => exact hok
   | no => exact absurd rfl hr.1
@@ -117,7 +134,7 @@ theorem rwLeaf_try (x : LockId) (m : Mode) (Q : Bool → HG → Prop) (E : Unit 
     (hok : Q true { g with held := g.held.add x m })
     (hno : Q false g)
     (hp : g.panics < n → E () { g with panics := g.panics + 1 }) :
-    wp (HoldSpec n) ((rwLeaf x).try_ m) Q E g := by
+    wp (HoldSpec n ro) ((rwLeaf x).try_ m) Q E g := by
   refine ⟨trivial, fun r hr => ?_⟩
   cases r with
   | ok => exact hok
@@ -129,7 +146,7 @@ theorem rwLeaf_rel (x : LockId) (m : Mode) (Q : Unit → HG → Prop) (E : Unit 
     (hok : Q () { g with held := g.held.sub x m })
     (hp : g.panics < n →
       E () { g with held := g.held.sub x m, stuck := g.stuck.add x m, panics := g.panics + 1 }) :
-    wp (HoldSpec n) ((rwLeaf x).rel m) Q E g := by
+    wp (HoldSpec n ro) ((rwLeaf x).rel m) Q E g := by
   refine ⟨hh, fun r hr => ?_⟩
   cases r with
   | ok => exact hok
@@ -137,5 +154,31 @@ theorem rwLeaf_rel (x : LockId) (m : Mode) (Q : Unit → HG → Prop) (E : Unit 
   | panic => exact hp (hr.2 rfl)
 
 end leaf
+
+/-- the rank obligation for a whole footprint -/
+def LowFp (ro : RankOpt) (h : Held) (fp : Fp) : Prop := ∀ k ∈ fp, Low ro h k.1
+
+/-- every lock of `a` ranks below every lock of `b` (no obligation without a rank) -/
+def FpBelow (ro : RankOpt) (a b : Fp) : Prop :=
+  match ro with
+  | none => True
+  | some rank => ∀ x ∈ a, ∀ y ∈ b, rank x.1 < rank y.1
+
+theorem LowFp_empty (ro : RankOpt) (fp : Fp) : LowFp ro Held.empty fp := fun k _ => Low_empty ro k.1
+
+theorem LowFp.mono {ro : RankOpt} {h : Held} {a b : Fp} (hl : LowFp ro h b) (hs : ∀ k ∈ a, k ∈ b) :
+    LowFp ro h a := fun k hk => hl k (hs k hk)
+
+theorem LowFp.plus {ro : RankOpt} {h : Held} {a b : Fp} (hl : LowFp ro h b) (hab : FpBelow ro a b) :
+    LowFp ro (h.plus a) b := by
+  cases ro with
+  | none => intro k _; trivial
+  | some rank =>
+    intro k hk y m hpos
+    simp only [Held.plus] at hpos
+    by_cases hy : 0 < h y m
+    · exact hl k hk y m hy
+    · have : 0 < a.count (y, m) := by omega
+      exact hab (y, m) (List.count_pos_iff.1 this) k hk
 
 end HLV
